@@ -100,6 +100,8 @@ def main(argv=None):
     return 0
 
   # ---- search mode -----------------------------------------------------------
+  import shutil  # pylint: disable=g-import-not-at-top
+  shutil.rmtree(os.path.join(ROOT, 'replays', pid), ignore_errors=True)   # replay files of this run only
   total = Acct()
   jobs = list(mod.plan(args.tier, seed))
   reg = sorted(glob.glob(os.path.join(ROOT, 'regress', pid, '*.json')))
